@@ -49,6 +49,10 @@ CLAIMED = {
    text="Generated pipelines (optionally with observe_on/subscribe_on) over finite sources; a counting token is cloned into the three subscribe callbacks, every operator closure and every item; endings: complete, error, cancel at every position. The harness then drops its Observable, Subscription and source handles and lets workers drain. Oracle: no owner of a token is left.",
    technique='deterministic simulation: ending-cause x position faults; drop-counting token conservation at quiescence',
    note="Only subscriptions that ended are judged. The harness stores token-free copies of recorded items."),
+ 'C14': dict(level='exploration', design='5.14',
+   text="One generated pipeline value (every operator incl. wrapping in retry) over hot sources with per-subscription scripts, cold sources and creation functions is subscribed 2..3 times: sequentially, interleaved (the second subscription starts while the first is mid-stream), and nested from inside a callback. Self-differential oracle: subscriber k's record equals its record when the same AST is built afresh and subscribed once, driven by the same steps; tap side-effect counters equal the sum of the solo runs.",
+   technique='deterministic simulation (single driver task): interleaved sessions sharing one object, self-differential oracle against fresh solo runs',
+   note="No reference semantics are assumed: the reference is the crate itself on a fresh pipeline. Sampling, not enumeration."),
  # -- more claimed
 }
 NA = {
